@@ -189,10 +189,29 @@ def runWHistory (layout : Bool) (cs : List Cache) (ops : List Op) : String :=
   let a := ops.foldl (wStepOp seqIds) ⟨cs, [], [], false⟩
   joinWith " | " (if layout then a.ls.reverse else a.xs.reverse)
 
+/-! encoder histories: `enc <permV> <nops> (S n base idx reserve | P id | R b e)*` -/
+
+def pEOp : TP (List EOp) := do
+  let k ← tok
+  match k with
+  | "S" =>
+    let _n ← nat; let base ← int; let idx ← int; let r ← nat
+    return [.start (some (base + idx)) (r != 0)]
+  | "P" => let id ← nat; return [.put 0 id, .put 1 id]   -- the driver Puts every layer
+  | "R" => return [.remove (← int) (← int)]
+  | _ => failure
+
+def runEnc (ops : List (List EOp)) : String :=
+  let step := fun (acc : Enc × List String) (op : List EOp) =>
+    let s := op.foldl encStep acc.1
+    (s, s!"cached={s.cached} pos={s.encPos} l0={(s.get 0).getD 0} l1={(s.get 1).getD 0}" :: acc.2)
+  joinWith " | " (ops.foldl step ({}, [])).2.reverse
+
 def handle (toks : List String) : Option String :=
   match toks with
   | "kv-x" :: rest => runTP (do let (c, ops) ← pHistory; pure (runHistory false c ops)) rest
   | "kv-l" :: rest => runTP (do let (c, ops) ← pHistory; pure (runHistory true c ops)) rest
+  | "enc" :: rest => runTP (do let _permV ← nat; let ops ← listOf pEOp; pure (runEnc ops)) rest
   | "kw-x" :: rest => runTP (do let (cs, ops) ← pWHistory; pure (runWHistory false cs ops)) rest
   | "kw-l" :: rest => runTP (do let (cs, ops) ← pWHistory; pure (runWHistory true cs ops)) rest
   | _ => none
